@@ -105,6 +105,10 @@ def stages(tier, seed, witness_search=False):
         zs.append(Script([f"D zeroscan hash {ln} 0"], tags=("zeroize-hash",)))
         for ex in [0, 10, 64, 200]:
             zs.append(Script([f"D zeroscan x {ln} {ex}"], tags=("zeroize-reader",)))
+        for ex in [1, 10, 63, 65, 200]:
+            # a read that stops inside a block, then leaving that block (seek / read to its end), then zeroize
+            zs.append(Script([f"D zeroscan xs {ln} {ex}"], tags=("zeroize-reader-seek",)))
+            zs.append(Script([f"D zeroscan xb {ln} {ex}"], tags=("zeroize-reader-boundary",)))
     return [PairStage("debug", scripts), LineStage("zeroize-scan", zs, oracle=zero_oracle, max_minimise=2)]
 
 
